@@ -18,13 +18,14 @@ from .progs import compile_expr
 
 NODE_BASE = 0xC0DE00
 GAS = 0xFFFFFF
+MARKER = int.from_bytes(b"\x11" * 32, "big")
 REPORT_WORDS = 9
 REPORT = 32 * REPORT_WORDS
 ARG_OFF = REPORT  # one word of arguments for children
 KIDS_OFF = REPORT + 32
 
 CALL_KINDS = ["CALL", "STATICCALL", "DELEGATECALL", "CALLCODE"]
-OUTCOMES = ["return", "return", "return", "revert", "invalid", "oob", "stop", "static_write"]
+OUTCOMES = ["return", "return", "return", "revert", "invalid", "oob", "stop", "static_write", "short", "short_revert"]
 
 
 @dataclass
@@ -170,6 +171,9 @@ def node_code(n: Node, accounts: dict) -> bytes:
         accounts[c.addr] = node_code(c, accounts)
         if c.retshape[0] == "area":
             rsz, roff = c.retshape[1], base + 64
+            # dirty the return area first: bytes of it beyond the returned data must survive the call
+            for k in range(0, min(rsz, 96), 32):
+                body += [("PUSHN", 32, MARKER), ("PUSH", roff + k), "MSTORE"]
         else:
             rsz, roff = 0, 0
         body += [("PUSH", rsz), ("PUSH", roff), ("PUSH", 32), ("PUSH", ARG_OFF)]
@@ -188,6 +192,11 @@ def node_code(n: Node, accounts: dict) -> bytes:
         body += [("PUSHN", 2, total), ("PUSH", 0), "RETURN"]
     elif n.outcome == "stop":
         body += ["STOP"]
+    elif n.outcome == "short":
+        # fewer bytes than any return area: the rest of the caller's area keeps its contents
+        body += [("PUSH", 3), ("PUSH", 29), "RETURN"]
+    elif n.outcome == "short_revert":
+        body += [("PUSH", 2), ("PUSH", 30), "REVERT"]
     elif n.outcome == "revert":
         body += [("PUSHN", 2, total), ("PUSH", 0), "REVERT"]
     elif n.outcome == "invalid":
@@ -274,6 +283,9 @@ def _root_with_epilogue(root: Node, accounts: dict, epi: list, total: int) -> by
             continue
         if c.retshape[0] == "area":
             rsz, roff = c.retshape[1], base + 64
+            # dirty the return area first: bytes of it beyond the returned data must survive the call
+            for k in range(0, min(rsz, 96), 32):
+                body += [("PUSHN", 32, MARKER), ("PUSH", roff + k), "MSTORE"]
         else:
             rsz, roff = 0, 0
         body += [("PUSH", rsz), ("PUSH", roff), ("PUSH", 32), ("PUSH", ARG_OFF)]
